@@ -486,9 +486,10 @@ class HyperbolicDrawing(Drawing):
             ordered_endpts[1, 0] < self.left_infinity or
             ordered_endpts[1, 0] > self.right_infinity):
 
+            # the other endpoint is (effectively) at infinity: draw a
+            # vertical ray. Otherwise keep both endpoints (a chord).
             ordered_endpts[1, 1] = self.up_infinity
-
-        ordered_endpts[1, 0] = ordered_endpts[0, 0]
+            ordered_endpts[1, 0] = ordered_endpts[0, 0]
 
         return ordered_endpts
 
